@@ -539,6 +539,7 @@ type VCSet struct {
 	Blocks []*BlockDef // topological order
 	Obs    []*Obligation
 	anc    map[int]map[int]bool
+	byID   map[int]*BlockDef
 	ancOnce sync.Once
 }
 
@@ -546,6 +547,22 @@ type BlockDef struct {
 	ID    int
 	Text  string
 	Preds []int
+	Idom  int // immediate dominator in the loop-free graph (-1 for the entry)
+}
+
+// dominators of block id, including id itself.
+func (vs *VCSet) domChain(id int) []int {
+	byID := vs.byID
+	var out []int
+	for cur := id; cur >= 0; {
+		out = append(out, cur)
+		b := byID[cur]
+		if b == nil || b.Idom == cur {
+			break
+		}
+		cur = b.Idom
+	}
+	return out
 }
 
 // ancestors returns the set of blocks that can reach block id (including id).
@@ -583,6 +600,20 @@ func (vs *VCSet) queryText(obs []*Obligation) string {
 	if obs == nil {
 		return sb.String()
 	}
+	// every path to the goal block runs through its dominators: their facts hold unconditionally
+	common := map[int]int{}
+	for _, ob := range obs {
+		for _, d := range vs.domChain(ob.Block) {
+			if d != ob.Block {
+				common[d]++
+			}
+		}
+	}
+	for _, b := range vs.Blocks {
+		if common[b.ID] == len(obs) {
+			sb.WriteString(fmt.Sprintf("(assert X$%d)\n", b.ID))
+		}
+	}
 	if len(obs) == 1 {
 		sb.WriteString("(assert " + obs[0].Query + ")\n")
 	} else {
@@ -610,6 +641,9 @@ func (f *ILFunc) genVC(background string, extra func(decl string) string) *VCSet
 	for _, d := range decls {
 		sb.WriteString(d)
 		sb.WriteByte('\n')
+		if extra != nil {
+			sb.WriteString(extra(d))
+		}
 	}
 	vs := &VCSet{}
 	rname := func(b *ILBlock) string { return fmt.Sprintf("R$%d", b.ID) }
@@ -618,13 +652,19 @@ func (f *ILFunc) genVC(background string, extra func(decl string) string) *VCSet
 		sb.WriteString(fmt.Sprintf("(declare-const %s Bool)\n(declare-const %s Bool)\n", rname(b), xname(b)))
 	}
 	vs.Common = sb.String()
+	f.dominators(order)
+	vs.byID = map[int]*BlockDef{}
 	// One-directional encoding (sufficient for refutation, and it keeps quantified facts at top level):
 	//   R_b  => OR over predecessors p (X_p and edge condition and version equalities)
 	//   P_b,j => R_b and every statement before the j-th obligation of b
 	//   X_b  => R_b and every statement of b
 	for _, b := range order {
 		var bs strings.Builder
-		bd := &BlockDef{ID: b.ID}
+		bd := &BlockDef{ID: b.ID, Idom: -1}
+		if b.idom != nil {
+			bd.Idom = b.idom.ID
+		}
+		vs.byID[b.ID] = bd
 		if b != f.Entry {
 			var dis []string
 			for _, p := range b.Preds {
